@@ -769,8 +769,11 @@ OPAQUE_OPS = {"lmap", "single", "flat", "lens", "emap", "zip", "enum", "filterma
 
 def normalise(st, t, depth=0):
     """Normal form of a term under the array algebra and the established equalities."""
-    if not isinstance(t, tuple) or depth > 30 or not t or not isinstance(t[0], str):
+    if not isinstance(t, tuple) or depth > 30 or not t:
         return t
+    if not isinstance(t[0], str):
+        # a tuple of sub-structures (e.g. the field list of a frozen record inside a mapped list)
+        return tuple(normalise(st, a, depth + 1) if isinstance(a, tuple) else (normalise_poly(st, a) if isinstance(a, Poly) else a) for a in t)
     op = t[0]
     if op in OPAQUE_OPS:
         r = t
@@ -802,10 +805,103 @@ def normalise(st, t, depth=0):
         r = mk_inj(st, normalise(st, t[1], depth + 1), normalise(st, t[2], depth + 1))
     else:
         r = (op,) + tuple(normalise(st, a, depth + 1) if isinstance(a, tuple) else a for a in t[1:])
+    r2 = _degenerate(st, r)
+    if r2 is not r and r2 != r:
+        return normalise(st, r2, depth + 1)
     # rewrite with established equalities (oriented: bigger -> smaller)
     for (a, b) in st.teq:
         if r == a and a != b:
             return normalise(st, b, depth + 1)
+    return r
+
+
+def normalise_poly(st, p, depth=0):
+    """Atoms that read a term (get / sum / len / max of a term) are re-expressed over the term's normal form; reads of
+    constant arrays become their value."""
+    if not isinstance(p, Poly) or depth > 4:
+        return p
+    mapping = {}
+    for a in p.atoms():
+        if not (isinstance(a, tuple) and a and isinstance(a[0], str)):
+            continue
+        try:
+            if a[0] == "get" and len(a) == 3 and isinstance(a[1], tuple):
+                t = normalise(st, a[1])
+                if t[0] == "fill":
+                    mapping[a] = as_poly(t[1])
+                elif t != a[1]:
+                    mapping[a] = Poly.atom(("get", t, a[2]))
+            elif a[0] == "sum" and len(a) == 2 and isinstance(a[1], tuple):
+                t = normalise(st, a[1])
+                v = t_sum(t)
+                if v != Poly.atom(a):
+                    mapping[a] = v
+            elif a[0] == "len" and len(a) == 2 and isinstance(a[1], tuple):
+                t = normalise(st, a[1])
+                v = t_len(t)
+                if v != Poly.atom(a):
+                    mapping[a] = v
+            elif a[0] == "max" and len(a) == 2 and isinstance(a[1], tuple):
+                t = normalise(st, a[1])
+                if t[0] == "fill" and st.ge(as_poly(t[2]), 1):
+                    mapping[a] = as_poly(t[1])
+                elif t != a[1]:
+                    mapping[a] = Poly.atom(("max", t))
+            elif a[0] == "nzero" and len(a) == 2 and isinstance(a[1], tuple):
+                t = normalise(st, a[1])
+                if t != a[1]:
+                    mapping[a] = Poly.atom(("nzero", t))
+        except Exception:
+            continue
+    return p.subst(mapping) if mapping else p
+
+
+def _is_zero_fill(st, t):
+    return t[0] == "fill" and st.eq(as_poly(t[1]), 0)
+
+
+def _degenerate(st, r):
+    """Simplifications that hold because of what the path established (an operand is empty, an offset or a factor is
+    0, a divisor is 1, ...): the special cases that hand-written fast paths exploit."""
+    op = r[0]
+    if op in ("empty", "v", "arange") or not isinstance(r, tuple):
+        return r
+    try:
+        if op not in ("fill",) and _known_empty(st, r):
+            return EMPTY
+        if op == "shift" and st.eq(as_poly(r[1]), 0):
+            return r[2]
+        if op == "bincount" and _known_empty(st, r[1]):
+            return ("fill", Poly.const(0), as_poly(r[2]))
+        if op == "add":
+            if _is_zero_fill(st, r[2]):
+                return r[1]
+            if _is_zero_fill(st, r[1]):
+                return r[2]
+        if op == "sub" and _is_zero_fill(st, r[2]):
+            return r[1]
+        if op in ("sa", "sac", "ssa") and _known_empty(st, r[2]):
+            return r[1]
+        if op == "mulcadd" and st.eq(as_poly(r[2]), 0):
+            return r[3]
+        if op == "quot" and st.eq(as_poly(r[2]), 1):
+            return r[1]
+        if op == "rem" and st.eq(as_poly(r[2]), 1):
+            return ("fill", Poly.const(0), t_len(r[1]))
+        if op == "fill" and st.eq(as_poly(r[2]), 0):
+            return EMPTY
+        if op == "slice" and st.eq(as_poly(r[2]), 0) and st.eq(as_poly(r[3]), t_len(r[1])):
+            return r[1]
+        if op == "repeat" and r[1][0] == "fill" and st.eq(as_poly(r[1][1]), 1):
+            return r[2]         # every element repeated once
+        if op == "lmap" and isinstance(r[2], tuple) and len(r[2]) == 3 and r[2][0] == "rec":
+            # mapping every hyperedge to itself
+            flds = dict(r[2][2]) if all(isinstance(x, tuple) and len(x) == 2 for x in r[2][2]) else {}
+            if set(flds) == {"sources", "targets"} and flds["sources"] == ("seq", ("el", r[1], "sources")) \
+                    and flds["targets"] == ("seq", ("el", r[1], "targets")):
+                return r[1]
+    except Exception:
+        return r
     return r
 
 
@@ -834,6 +930,24 @@ def term_size(t):
     return 1 + sum(term_size(x) for x in t[1:])
 
 
+def deep_degenerate(st, t, depth=0):
+    """The degenerate-case simplifications applied everywhere inside a term, also below binders (mapped lists, frozen
+    records): shift by 0, concatenation with an empty part, the identity map of a list of hyperedges, ..."""
+    if isinstance(t, Poly):
+        return normalise_poly(st, t)
+    if not isinstance(t, tuple) or depth > 40 or not t:
+        return t
+    kids = tuple(deep_degenerate(st, x, depth + 1) for x in t)
+    if isinstance(kids[0], str) and kids[0] in ("shift", "lmap", "concat", "add", "sub", "mulcadd", "sa", "sac", "ssa",
+                                              "bincount", "fill", "slice", "repeat", "gather", "quot", "rem"):
+        r = kids
+        if r[0] == "concat":
+            r = mk_concat([p for p in r[1:] if not (p[0] == "empty")])
+        r2 = _degenerate(st, r)
+        return r2
+    return kids
+
+
 def terms_equal(st, a, b):
     if a == b:
         return True
@@ -841,7 +955,14 @@ def terms_equal(st, a, b):
     if na == nb:
         return True
     # compare part-wise for concatenations with polynomially equal pieces
-    return _struct_eq(st, na, nb)
+    if _struct_eq(st, na, nb):
+        return True
+    # special cases established by the path (an empty operand, a zero offset, ...) inside mapped lists and records
+    da, db = deep_degenerate(st, na), deep_degenerate(st, nb)
+    if (da != na or db != nb):
+        da, db = normalise(st, da), normalise(st, db)
+        return da == db or _struct_eq(st, da, db)
+    return False
 
 
 def _struct_eq(st, a, b):
